@@ -5,7 +5,10 @@ interleaving semantics of Spec/Interleave, for every schedule:
  * the fragment without expiring entries is closed under steps (`PcOk`, `NoShort`);
  * books: ghost pending deltas — `count + Σ pendC = |store|`, `bytes + Σ pendB = Σ size`;
  * provenance: every stored value was written by some put for that key;
- * linearisation log: legal sequential history, ends in the stored map, per-thread answers.
+ * linearisation log: legal sequential history, ends in the stored map, per-thread answers;
+ * the background cleanup task (`Op.sweep`): books with expiring entries for put / remove /
+   sweep histories (`SInv`), and a stored entry whose TTL has not ended survives every step of
+   a sweeping thread (`sweepOnly_step_spares`).
 -/
 import Cascette.Model.MemConc
 import Cascette.Proofs.MemCache
@@ -88,6 +91,22 @@ theorem contOp_pInsert_none {a : PutArgs} (h : lookup a.k s.store = none) :
        .pNewCount (MemCache.newEntry s a.v a.short).size, [.unit], [.put a.k a.v]) := by
   simp only [contOp, h]
 
+theorem startOp_sweep (ord : List Key) :
+    startOp cfg s (.sweep ord) = (s, afterSweep (sweepKeys ord s.store), [.unit], []) := rfl
+
+theorem contOp_wRemove_short {k : Key} {ks : List Key} {e : Entry} (h : lookup k s.store = some e)
+    (hs : e.short = true) :
+    contOp cfg vic s (.wRemove k ks) = ({ s with store := erase k s.store }, .wCount e.size ks, [], [.drop k]) := by
+  simp only [contOp, h, hs, if_true]
+
+theorem contOp_wRemove_live {k : Key} {ks : List Key} {e : Entry} (h : lookup k s.store = some e)
+    (hs : e.short = false) :
+    contOp cfg vic s (.wRemove k ks) = (s, afterSweep ks, [], []) := by
+  simp only [contOp, h, hs]; rfl
+
+theorem contOp_wRemove_none {k : Key} {ks : List Key} (h : lookup k s.store = none) :
+    contOp cfg vic s (.wRemove k ks) = (s, afterSweep ks, [], []) := by
+  simp only [contOp, h]
 
 /-! ## fragments -/
 
@@ -102,6 +121,7 @@ instance (clr : Bool) (op : Op) : Decidable (OpOk clr op) := by
 
 def PcOk (clr : Bool) : Pc → Prop
   | .xRemove _ _ _ | .xCount _ _ | .xBytes _ _ => False
+  | .wCount _ _ | .wBytes _ _ => False
   | .cCount | .cBytes => clr = true
   | .pEvict a | .eLoad a | .eSnap a _ | .eRemove a _ _ | .eCount a _ _ | .eBytes a _ _ | .pInsert a => a.short = false
   | _ => True
@@ -126,6 +146,9 @@ theorem noShort_cons {st : Store} {k : Key} {e : Entry} (he : e.short = false) (
 theorem afterVictim_ok {clr : Bool} {a : PutArgs} (ha : a.short = false) (vs : List Key) :
     PcOk clr (afterVictim a vs) := by
   cases vs <;> exact ha
+
+theorem afterSweep_ok {clr : Bool} (ks : List Key) : PcOk clr (afterSweep ks) := by
+  cases ks <;> trivial
 
 variable {s}
 
@@ -160,6 +183,7 @@ theorem startOp_ok {clr : Bool} {op : Op} (hn : NoDup s.store)
     rw [startOp_clear]
     refine ⟨trivial, ?_, hop⟩
     intro p hp; cases hp
+  | sweep ord => rw [startOp_sweep]; exact ⟨hn, hs, afterSweep_ok _⟩
 
 /-- a later step of an operation stays in the fragment -/
 theorem contOp_ok {clr : Bool} {pc : Pc} (hn : NoDup s.store) (hs : NoShort s.store) (hpc : PcOk clr pc) :
@@ -204,18 +228,25 @@ theorem contOp_ok {clr : Bool} {pc : Pc} (hn : NoDup s.store) (hs : NoShort s.st
   | rBytes sz => exact ⟨hn, hs, trivial⟩
   | cCount => exact ⟨hn, hs, hpc⟩
   | cBytes => exact ⟨hn, hs, trivial⟩
+  | wRemove k ks =>
+    cases hl : lookup k s.store with
+    | none => rw [contOp_wRemove_none cfg vic s hl]; exact ⟨hn, hs, afterSweep_ok _⟩
+    | some e => rw [contOp_wRemove_live cfg vic s hl (noShort_lookup hs hl)]; exact ⟨hn, hs, afterSweep_ok _⟩
+  | wCount sz ks => exact hpc.elim
+  | wBytes sz ks => exact hpc.elim
 
 /-! ## books: pending deltas -/
 
 /-- what the thread still owes `entry_count` -/
 def pendC : Pc → Int
-  | .xCount _ _ | .eCount _ _ _ | .rCount _ => -1
+  | .xCount _ _ | .eCount _ _ _ | .rCount _ | .wCount _ _ => -1
   | .pNewCount _ => 1
   | _ => 0
 
 /-- what the thread still owes `memory_usage` -/
 def pendB : Pc → Int
   | .xCount _ sz | .xBytes _ sz | .eCount _ sz _ | .eBytes _ sz _ | .rCount sz | .rBytes sz => -(sz : Int)
+  | .wCount sz _ | .wBytes sz _ => -(sz : Int)
   | .pReplBytes new old => (new : Int) - (old : Int)
   | .pNewCount sz | .pNewBytes sz => (sz : Int)
   | _ => 0
@@ -225,6 +256,21 @@ def bDefect (s : State) (pc : Pc) : Int := s.bytes + pendB pc - (sumSize s.store
 
 theorem pendC_afterVictim (a : PutArgs) (vs : List Key) : pendC (afterVictim a vs) = 0 := by cases vs <;> rfl
 theorem pendB_afterVictim (a : PutArgs) (vs : List Key) : pendB (afterVictim a vs) = 0 := by cases vs <;> rfl
+
+theorem pendC_afterSweep (ks : List Key) : pendC (afterSweep ks) = 0 := by cases ks <;> rfl
+theorem pendB_afterSweep (ks : List Key) : pendB (afterSweep ks) = 0 := by cases ks <;> rfl
+
+/-- the thread is neither on the expired-entry path of a reader nor inside `clear` (the two
+places where the tree's counter updates are not tied to what the map access did) -/
+def PcB : Pc → Prop
+  | .xRemove _ _ _ | .xCount _ _ | .xBytes _ _ | .cCount | .cBytes => False
+  | _ => True
+
+theorem pcB_of_ok {pc : Pc} (h : PcOk false pc) : PcB pc := by
+  cases pc <;> first | trivial | exact h.elim | cases h
+
+theorem pcB_afterVictim (a : PutArgs) (vs : List Key) : PcB (afterVictim a vs) := by cases vs <;> trivial
+theorem pcB_afterSweep (ks : List Key) : PcB (afterSweep ks) := by cases ks <;> trivial
 
 theorem sumSize_cons (k : Key) (e : Entry) (t : Store) : sumSize ((k, e) :: t) = e.size + sumSize t := rfl
 
@@ -261,8 +307,12 @@ theorem startOp_books {op : Op} (hn : NoDup s.store) (hs : NoShort s.store) (hop
       · simp only [cDefect, pendC]; omega
       · simp only [bDefect, pendB]; omega
   | clear => cases hop
+  | sweep ord =>
+    rw [startOp_sweep]
+    simp only [cDefect, bDefect, pendC_afterSweep, pendB_afterSweep]
+    exact ⟨rfl, rfl⟩
 
-theorem contOp_books {pc : Pc} (hn : NoDup s.store) (hpc : PcOk false pc) :
+theorem contOp_books {pc : Pc} (hn : NoDup s.store) (hpc : PcB pc) :
     cDefect (contOp cfg vic s pc).1 (contOp cfg vic s pc).2.1 = cDefect s pc ∧
     bDefect (contOp cfg vic s pc).1 (contOp cfg vic s pc).2.1 = bDefect s pc := by
   cases pc with
@@ -326,6 +376,32 @@ theorem contOp_books {pc : Pc} (hn : NoDup s.store) (hpc : PcOk false pc) :
     constructor <;> first | trivial | omega
   | cCount => cases hpc
   | cBytes => cases hpc
+  | wRemove k ks =>
+    cases hl : lookup k s.store with
+    | none =>
+      rw [contOp_wRemove_none cfg vic s hl]
+      simp only [cDefect, bDefect, pendC_afterSweep, pendB_afterSweep]
+      exact ⟨rfl, rfl⟩
+    | some e =>
+      by_cases hsh : e.short = true
+      · -- the entry stored NOW is removed and ITS size is what the task will book
+        rw [contOp_wRemove_short cfg vic s hl hsh]
+        have h1 := length_erase hn hl
+        have h2 : sumSize (erase k s.store) + e.size = sumSize s.store := sumBy_erase Entry.size hn hl
+        constructor
+        · simp only [cDefect, pendC]; omega
+        · simp only [bDefect, pendB]; omega
+      · have hsh : e.short = false := by simpa using hsh
+        rw [contOp_wRemove_live cfg vic s hl hsh]
+        simp only [cDefect, bDefect, pendC_afterSweep, pendB_afterSweep]
+        exact ⟨rfl, rfl⟩
+  | wCount sz ks =>
+    simp only [contOp, cDefect, bDefect, pendC, pendB]
+    constructor <;> first | trivial | omega
+  | wBytes sz ks =>
+    simp only [contOp, cDefect, bDefect, pendC_afterSweep, pendB_afterSweep]
+    simp only [pendC, pendB]
+    constructor <;> first | trivial | omega
 
 
 /-! ## one step of a thread -/
@@ -391,7 +467,7 @@ theorem step_books {t : Thread} (hn : NoDup s.store) (hs : NoShort s.store) (ht 
       rw [hpc]
       exact h
   · rw [step_cont cfg vic s hpc]
-    exact contOp_books cfg vic (s := MemCache.tick s) hn ht.1
+    exact contOp_books cfg vic (s := MemCache.tick s) hn (pcB_of_ok ht.1)
 
 /-! ## systems: any number of threads, any schedule -/
 
@@ -613,6 +689,10 @@ theorem startOp_W {op : Op} (hs : StoreW Wr s.store) (hop : OpW Wr op) :
     rw [startOp_clear]
     refine ⟨?_, trivial, fun o _ k' v hk _ => by cases hk⟩
     intro p hp; cases hp
+  | sweep ord =>
+    rw [startOp_sweep]
+    refine ⟨hs, ?_, fun o _ k' v hk _ => by cases hk⟩
+    cases sweepKeys ord s.store <;> trivial
 
 theorem contOp_W {pc : Pc} (hs : StoreW Wr s.store) (hpc : PcW Wr pc) :
     StoreW Wr (contOp cfg vic s pc).1.store ∧ PcW Wr (contOp cfg vic s pc).2.1 := by
@@ -658,6 +738,20 @@ theorem contOp_W {pc : Pc} (hs : StoreW Wr s.store) (hpc : PcW Wr pc) :
   | rBytes sz => exact ⟨hs, trivial⟩
   | cCount => exact ⟨hs, trivial⟩
   | cBytes => exact ⟨hs, trivial⟩
+  | wRemove k ks =>
+    have haft : PcW Wr (afterSweep ks) := by cases ks <;> trivial
+    cases hl : lookup k s.store with
+    | none => rw [contOp_wRemove_none cfg vic s hl]; exact ⟨hs, haft⟩
+    | some e =>
+      by_cases hsh : e.short = true
+      · rw [contOp_wRemove_short cfg vic s hl hsh]; exact ⟨storeW_erase k hs, trivial⟩
+      · have hsh : e.short = false := by simpa using hsh
+        rw [contOp_wRemove_live cfg vic s hl hsh]; exact ⟨hs, haft⟩
+  | wCount sz ks => exact ⟨hs, trivial⟩
+  | wBytes sz ks =>
+    refine ⟨hs, ?_⟩
+    show PcW Wr (afterSweep ks)
+    cases ks <;> trivial
 
 theorem pcOp_not_get {pc : Pc} {op : Op} (h : pcOp pc = some op) (k : Key) : op ≠ .get k := by
   cases pc <;> simp only [pcOp] at h <;> first | (cases h; intro h'; cases h') | cases h
@@ -809,6 +903,9 @@ theorem startOp_lin {op : Op} (hs : NoShort s.store) :
   | clear =>
     rw [startOp_clear]
     exact ⟨⟨trivial, trivial⟩, rfl, rfl⟩
+  | sweep ord =>
+    rw [startOp_sweep]
+    exact ⟨trivial, rfl, rfl⟩
 
 theorem contOp_lin {pc : Pc} (hpc : PcOk true pc) :
     Legal (abs s.store) (contOp cfg vic s pc).2.2.2 ∧
@@ -853,6 +950,19 @@ theorem contOp_lin {pc : Pc} (hpc : PcOk true pc) :
   | rBytes sz => exact ⟨trivial, rfl, rfl⟩
   | cCount => exact ⟨trivial, rfl, rfl⟩
   | cBytes => exact ⟨trivial, rfl, rfl⟩
+  | wRemove k ks =>
+    cases hl : lookup k s.store with
+    | none => rw [contOp_wRemove_none cfg vic s hl]; exact ⟨trivial, rfl, rfl⟩
+    | some e =>
+      by_cases hsh : e.short = true
+      · rw [contOp_wRemove_short cfg vic s hl hsh]
+        refine ⟨⟨trivial, trivial⟩, ?_, rfl⟩
+        show abs (erase k s.store) = fun k' => if k' = k then none else abs s.store k'
+        exact abs_erase k s.store
+      · have hsh : e.short = false := by simpa using hsh
+        rw [contOp_wRemove_live cfg vic s hl hsh]; exact ⟨trivial, rfl, rfl⟩
+  | wCount sz ks => exact hpc.elim
+  | wBytes sz ks => exact hpc.elim
 
 /-- the client events a list of answers stands for -/
 def evsOf (rs : List (Op × Out)) : List Ev := rs.filterMap (fun r => evOf r.1 r.2)
@@ -983,5 +1093,267 @@ theorem linv_stepAt {r0 : Ref} (y : Sys State Thread Ev) (i : Nat) (h : LInv r0 
       · rw [List.getElem?_set_ne hij] at hu'
         rw [clientLog_append_ne hij]
         exact h.answers j u hu'
+
+/-! ## the background cleanup task with expiring entries
+
+Fragment "writers and the cleanup task": puts of ANY TTL class (expiring entries included),
+removes and sweeps.  (The expired-entry path of get / contains and `clear` are the races the
+tree has; they stay outside.)  The ghost pending-delta equations hold at every moment: the
+sweep's `remove_if` tests and books the entry that is stored at that instant. -/
+
+def OpSw : Op → Prop
+  | .put _ _ _ | .remove _ | .sweep _ => True
+  | _ => False
+
+instance (op : Op) : Decidable (OpSw op) := by
+  cases op <;> unfold OpSw <;> infer_instance
+
+def ThreadSw (t : Thread) : Prop := PcB t.pc ∧ ∀ op ∈ t.todo, OpSw op
+
+theorem startOp_sw {op : Op} (hn : NoDup s.store) (hop : OpSw op) :
+    NoDup (startOp cfg s op).1.store ∧ PcB (startOp cfg s op).2.1 ∧
+    cDefect (startOp cfg s op).1 (startOp cfg s op).2.1 = cDefect s .idle ∧
+    bDefect (startOp cfg s op).1 (startOp cfg s op).2.1 = bDefect s .idle := by
+  cases op with
+  | get k => cases hop
+  | contains k => cases hop
+  | clear => cases hop
+  | put k v sh =>
+    rw [startOp_put]
+    dsimp only
+    split <;> exact ⟨hn, trivial, rfl, rfl⟩
+  | remove k =>
+    cases hl : lookup k s.store with
+    | none => rw [startOp_remove_none cfg s hl]; exact ⟨hn, trivial, rfl, rfl⟩
+    | some e =>
+      rw [startOp_remove_some cfg s hl]
+      have h1 := length_erase hn hl
+      have h2 : sumSize (erase k s.store) + e.size = sumSize s.store := sumBy_erase Entry.size hn hl
+      refine ⟨nodup_erase hn, trivial, ?_, ?_⟩
+      · simp only [cDefect, pendC]; omega
+      · simp only [bDefect, pendB]; omega
+  | sweep ord =>
+    rw [startOp_sweep]
+    refine ⟨hn, pcB_afterSweep _, ?_, ?_⟩
+    · simp only [cDefect, pendC_afterSweep]; rfl
+    · simp only [bDefect, pendB_afterSweep]; rfl
+
+/-- a later step keeps the keys distinct and never enters the reader's expired path or `clear` -/
+theorem contOp_pcB {pc : Pc} (hn : NoDup s.store) (hpc : PcB pc) :
+    NoDup (contOp cfg vic s pc).1.store ∧ PcB (contOp cfg vic s pc).2.1 := by
+  cases pc with
+  | idle => exact ⟨hn, trivial⟩
+  | xRemove g k sz => exact hpc.elim
+  | xCount g sz => exact hpc.elim
+  | xBytes g sz => exact hpc.elim
+  | pEvict a => simp only [contOp]; split <;> exact ⟨hn, trivial⟩
+  | eLoad a => simp only [contOp]; split <;> exact ⟨hn, trivial⟩
+  | eSnap a n => simp only [contOp]; exact ⟨hn, pcB_afterVictim _ _⟩
+  | eRemove a k vs =>
+    cases hl : lookup k s.store with
+    | none => rw [contOp_eRemove_none cfg vic s hl]; exact ⟨hn, pcB_afterVictim _ _⟩
+    | some e => rw [contOp_eRemove_some cfg vic s hl]; exact ⟨nodup_erase hn, trivial⟩
+  | eCount a sz vs => exact ⟨hn, trivial⟩
+  | eBytes a sz vs => exact ⟨hn, pcB_afterVictim _ _⟩
+  | pInsert a =>
+    cases hl : lookup a.k s.store with
+    | none => rw [contOp_pInsert_none cfg vic s hl]; exact ⟨nodup_cons_erase _ hn, trivial⟩
+    | some e => rw [contOp_pInsert_some cfg vic s hl]; exact ⟨nodup_cons_erase _ hn, trivial⟩
+  | pReplBytes n o => exact ⟨hn, trivial⟩
+  | pNewCount sz => exact ⟨hn, trivial⟩
+  | pNewBytes sz => exact ⟨hn, trivial⟩
+  | rCount sz => exact ⟨hn, trivial⟩
+  | rBytes sz => exact ⟨hn, trivial⟩
+  | cCount => exact hpc.elim
+  | cBytes => exact hpc.elim
+  | wRemove k ks =>
+    cases hl : lookup k s.store with
+    | none => rw [contOp_wRemove_none cfg vic s hl]; exact ⟨hn, pcB_afterSweep _⟩
+    | some e =>
+      by_cases hsh : e.short = true
+      · rw [contOp_wRemove_short cfg vic s hl hsh]; exact ⟨nodup_erase hn, trivial⟩
+      · have hsh : e.short = false := by simpa using hsh
+        rw [contOp_wRemove_live cfg vic s hl hsh]; exact ⟨hn, pcB_afterSweep _⟩
+  | wCount sz ks => exact ⟨hn, trivial⟩
+  | wBytes sz ks => exact ⟨hn, pcB_afterSweep _⟩
+
+theorem step_sw {t : Thread} (hn : NoDup s.store) (ht : ThreadSw t) :
+    NoDup (step cfg vic s t).1.store ∧ ThreadSw (step cfg vic s t).2.1 ∧
+    cDefect (step cfg vic s t).1 (step cfg vic s t).2.1.pc = cDefect s t.pc ∧
+    bDefect (step cfg vic s t).1 (step cfg vic s t).2.1.pc = bDefect s t.pc := by
+  by_cases hpc : t.pc = .idle
+  · cases htd : t.todo with
+    | nil => rw [step_idle_nil cfg vic s hpc htd]; exact ⟨hn, ht, rfl, rfl⟩
+    | cons op rest =>
+      rw [step_idle_cons cfg vic s hpc htd]
+      have hop : OpSw op := ht.2 op (by rw [htd]; exact List.mem_cons_self)
+      have h := startOp_sw cfg (s := MemCache.tick s) hn hop
+      rw [hpc]
+      exact ⟨h.1, ⟨h.2.1, fun o ho => ht.2 o (by rw [htd]; exact List.mem_cons_of_mem _ ho)⟩, h.2.2.1, h.2.2.2⟩
+  · rw [step_cont cfg vic s hpc]
+    have h := contOp_pcB cfg vic (s := MemCache.tick s) hn ht.1
+    have hb := contOp_books cfg vic (s := MemCache.tick s) hn ht.1
+    exact ⟨h.1, ⟨h.2, ht.2⟩, hb.1, hb.2⟩
+
+/-- the books invariant with the ghost pending deltas, expiring entries and the cleanup task
+included -/
+structure SInv (y : Sys State Thread Ev) : Prop where
+  nodup : NoDup y.shared.store
+  ok : ∀ t ∈ y.threads, ThreadSw t
+  count : y.shared.count + sumF (fun t => pendC t.pc) y.threads = (y.shared.store.length : Int)
+  bytes : y.shared.bytes + sumF (fun t => pendB t.pc) y.threads = (sumSize y.shared.store : Int)
+
+theorem sinv_stepAt (y : Sys State Thread Ev) (i : Nat) (h : SInv y) :
+    SInv (stepAt (machine cfg vic) y i) := by
+  rcases stepAt_cases (machine cfg vic) y i with heq | ⟨t, hget, _, heq⟩
+  · rw [heq]; exact h
+  · rw [heq]
+    have htm : t ∈ y.threads := mem_of_getElem? hget
+    have hst := step_sw cfg vic h.nodup (h.ok t htm)
+    have hc := h.count
+    have hby := h.bytes
+    refine ⟨hst.1, ?_, ?_, ?_⟩
+    · intro u hu
+      rcases List.mem_or_eq_of_mem_set hu with hu | rfl
+      · exact h.ok u hu
+      · exact hst.2.1
+    · show (step cfg vic y.shared t).1.count + sumF _ (y.threads.set i (step cfg vic y.shared t).2.1) =
+        ((step cfg vic y.shared t).1.store.length : Int)
+      rw [sumF_set _ _ _ _ _ hget]
+      have := hst.2.2.1
+      simp only [cDefect] at this
+      omega
+    · show (step cfg vic y.shared t).1.bytes + sumF _ (y.threads.set i (step cfg vic y.shared t).2.1) =
+        (sumSize (step cfg vic y.shared t).1.store : Int)
+      rw [sumF_set _ _ _ _ _ hget]
+      have := hst.2.2.2
+      simp only [bDefect] at this
+      omega
+
+theorem sinv_sys {s0 : State} {progs : List (List Op)} (hn : NoDup s0.store)
+    (hc : s0.count = (s0.store.length : Int)) (hb : s0.bytes = (sumSize s0.store : Int))
+    (hp : ∀ p ∈ progs, ∀ op ∈ p, OpSw op) : SInv (sys s0 progs) := by
+  have hidle : ∀ t ∈ (sys s0 progs).threads, t.pc = .idle := by
+    intro t ht
+    obtain ⟨p, _, rfl⟩ := List.mem_map.mp ht
+    rfl
+  refine ⟨hn, ?_, ?_, ?_⟩
+  · intro t ht
+    obtain ⟨p, hp', rfl⟩ := List.mem_map.mp ht
+    exact ⟨trivial, hp p hp'⟩
+  · rw [sumF_zero _ _ (fun t ht => by simp only [hidle t ht]; rfl)]
+    show s0.count + 0 = (s0.store.length : Int); omega
+  · rw [sumF_zero _ _ (fun t ht => by simp only [hidle t ht]; rfl)]
+    show s0.bytes + 0 = (sumSize s0.store : Int); omega
+
+/-! ### the sweep leaves every entry alone whose TTL has not ended -/
+
+/-- the thread is the cleanup task: between ticks or inside one -/
+def IsW : Pc → Prop
+  | .idle | .wRemove _ _ | .wCount _ _ | .wBytes _ _ => True
+  | _ => False
+
+def IsSweep : Op → Prop
+  | .sweep _ => True
+  | _ => False
+
+instance (op : Op) : Decidable (IsSweep op) := by
+  cases op <;> unfold IsSweep <;> infer_instance
+
+/-- a thread that does nothing but sweep, wherever it stands (whatever keys it has collected) -/
+def SweepOnly (t : Thread) : Prop := IsW t.pc ∧ ∀ op ∈ t.todo, IsSweep op
+
+theorem isW_afterSweep (ks : List Key) : IsW (afterSweep ks) := by cases ks <;> trivial
+
+/-- one step of the cleanup task, from ANY point of its loop and with ANY list of collected
+keys: it stays the cleanup task, and an entry whose TTL has not ended is still stored,
+unchanged, afterwards -/
+theorem sweepOnly_step {t : Thread} (ht : SweepOnly t) :
+    SweepOnly (step cfg vic s t).2.1 ∧
+    ∀ k e, lookup k s.store = some e → e.short = false →
+      lookup k (step cfg vic s t).1.store = some e := by
+  by_cases hpc : t.pc = .idle
+  · cases htd : t.todo with
+    | nil => rw [step_idle_nil cfg vic s hpc htd]; exact ⟨ht, fun k e h _ => h⟩
+    | cons op rest =>
+      rw [step_idle_cons cfg vic s hpc htd]
+      have hop : IsSweep op := ht.2 op (by rw [htd]; exact List.mem_cons_self)
+      cases op with
+      | sweep ord =>
+        rw [startOp_sweep]
+        exact ⟨⟨isW_afterSweep _, fun o ho => ht.2 o (by rw [htd]; exact List.mem_cons_of_mem _ ho)⟩,
+               fun k e h _ => h⟩
+      | get k => cases hop
+      | contains k => cases hop
+      | put k v sh => cases hop
+      | remove k => cases hop
+      | clear => cases hop
+  · rw [step_cont cfg vic s hpc]
+    have hw := ht.1
+    cases hpc' : t.pc with
+    | wRemove k' ks =>
+      cases hl : lookup k' (MemCache.tick s).store with
+      | none =>
+        rw [contOp_wRemove_none cfg vic _ hl]
+        exact ⟨⟨isW_afterSweep _, ht.2⟩, fun k e h _ => h⟩
+      | some e' =>
+        by_cases hsh : e'.short = true
+        · rw [contOp_wRemove_short cfg vic _ hl hsh]
+          refine ⟨⟨trivial, ht.2⟩, ?_⟩
+          intro k e h he
+          have hne : k ≠ k' := by
+            intro heq
+            subst heq
+            have : some e = some e' := h.symm.trans hl
+            cases this
+            rw [he] at hsh; cases hsh
+          show lookup k (erase k' s.store) = some e
+          rw [lookup_erase_ne hne]; exact h
+        · have hsh : e'.short = false := by simpa using hsh
+          rw [contOp_wRemove_live cfg vic _ hl hsh]
+          exact ⟨⟨isW_afterSweep _, ht.2⟩, fun k e h _ => h⟩
+    | wCount sz ks => exact ⟨⟨trivial, ht.2⟩, fun k e h _ => h⟩
+    | wBytes sz ks => exact ⟨⟨isW_afterSweep _, ht.2⟩, fun k e h _ => h⟩
+    | idle => exact absurd hpc' hpc
+    | xRemove g k sz => rw [hpc'] at hw; exact hw.elim
+    | xCount g sz => rw [hpc'] at hw; exact hw.elim
+    | xBytes g sz => rw [hpc'] at hw; exact hw.elim
+    | pEvict a => rw [hpc'] at hw; exact hw.elim
+    | eLoad a => rw [hpc'] at hw; exact hw.elim
+    | eSnap a n => rw [hpc'] at hw; exact hw.elim
+    | eRemove a k vs => rw [hpc'] at hw; exact hw.elim
+    | eCount a sz vs => rw [hpc'] at hw; exact hw.elim
+    | eBytes a sz vs => rw [hpc'] at hw; exact hw.elim
+    | pInsert a => rw [hpc'] at hw; exact hw.elim
+    | pReplBytes n o => rw [hpc'] at hw; exact hw.elim
+    | pNewCount sz => rw [hpc'] at hw; exact hw.elim
+    | pNewBytes sz => rw [hpc'] at hw; exact hw.elim
+    | rCount sz => rw [hpc'] at hw; exact hw.elim
+    | rBytes sz => rw [hpc'] at hw; exact hw.elim
+    | cCount => rw [hpc'] at hw; exact hw.elim
+    | cBytes => rw [hpc'] at hw; exact hw.elim
+
+/-- a system step taken by a sweeping thread (or by nobody) spares every live entry -/
+theorem stepAt_sweeper_spares (y : Sys State Thread Ev) (i : Nat)
+    (hi : ∀ t, y.threads[i]? = some t → SweepOnly t) :
+    (∀ (j : Nat) (t : Thread), (stepAt (machine cfg vic) y i).threads[j]? = some t →
+        (∃ t0, y.threads[j]? = some t0 ∧ (SweepOnly t0 → SweepOnly t))) ∧
+    ∀ k e, lookup k y.shared.store = some e → e.short = false →
+      lookup k (stepAt (machine cfg vic) y i).shared.store = some e := by
+  rcases stepAt_cases (machine cfg vic) y i with heq | ⟨t, hget, _, heq⟩
+  · rw [heq]; exact ⟨fun j t h => ⟨t, h, id⟩, fun k e h _ => h⟩
+  · rw [heq]
+    have hst := sweepOnly_step cfg vic (s := y.shared) (hi t hget)
+    refine ⟨?_, hst.2⟩
+    intro j u hu
+    have hu' : (y.threads.set i (step cfg vic y.shared t).2.1)[j]? = some u := hu
+    by_cases hij : i = j
+    · subst hij
+      have hlt : i < y.threads.length := (List.getElem?_eq_some_iff.mp hget).1
+      rw [List.getElem?_set_self hlt] at hu'
+      cases hu'
+      exact ⟨t, hget, fun _ => hst.1⟩
+    · rw [List.getElem?_set_ne hij] at hu'
+      exact ⟨u, hu', id⟩
 
 end Cascette.Proofs.MemConc
